@@ -168,7 +168,7 @@ def run(rep: core.Report):
     rep.rule("R11g", "dispatch tables (i, ci) -> closed form and the case split on omega agree between C and Python", 40)
     rep.rule("R11i", "every integration weight the TetrahedronMesh iterator stores comes from TetrahedronMethod.run(frequency points, selector) on every path (no data-dependent shortcut)", 2)
     rep.rule("R11h", "epsilon guards return 0 only for |delta| < THM_EPSILON / n < THM_EPSILON, and THM_EPSILON is defined for every CMake target that compiles the file", 14)
-    rep.rule("R11j", "small helpers by element-wise symbolic execution: the relative-grid-address getters copy every one of the 24x4x3 (x4) table entries to the same position, the matrix-vector product and the squared norm are the documented sums, the vertex frequencies of tetrahedron i are copied in order, each case adds IJ * gn", 6)
+    rep.rule("R11j", "small helpers by element-wise symbolic execution: the relative-grid-address getters copy every one of the 24x4x3 (x4) table entries to the same position, the matrix-vector product and the squared norm are the documented sums, the vertex frequencies of tetrahedron i are copied in order, each case adds IJ * gn (C and Python)", 8)
     rep.assume("vertex frequencies pairwise distinct (generic branch of _f); omega, v0..v3 real")
     _r11j(rep)
 
@@ -803,6 +803,26 @@ def _r11j(rep):
         prods.append(x.get("opcode") == "+=" and len(ks) == 2 and sorted(cast.text(cast.kids(y)[0]) for y in ks if y.get("kind") == "CallExpr") == ["IJ", "gn"])
     rep.instance("R11j", CF, "get_integration_weight", f"v[j] = tetrahedra_omegas[i][j]; {len(acc)} cases add IJ(...) * gn(...)", ok_copy and len(acc) == 5 and all(prods),
                  "the vertex frequencies of tetrahedron i are not copied in order, or a case does not add the product IJ * gn", line=tu.line(giw))
+    # Python side of the same two facts
+    pf = core.find_def(PY, f"{CLS}._get_integration_weight_py")
+    pacc = [a for a in ast.walk(pf) if isinstance(a, ast.AugAssign) and core.src(a.target) == "sum_value"]
+    pprods = []
+    for a in pacc:
+        v = a.value
+        ok_ = isinstance(a.op, ast.Add) and isinstance(v, ast.BinOp) and isinstance(v.op, ast.Mult) and isinstance(v.left, ast.Call) and isinstance(v.right, ast.Call) and sorted([core.src(v.left.func), core.src(v.right.func)]) == ["IJ", "gn"]
+        if ok_:
+            ij, gn_ = (v.left, v.right) if core.src(v.left.func) == "IJ" else (v.right, v.left)
+            ok_ = core.src(ij.args[0]) == core.src(gn_.args[0])
+        pprods.append(ok_)
+    rep.instance("R11j", PY, f"{CLS}._get_integration_weight_py", f"{len(pacc)} cases add IJ(k, position of the central vertex) * gn(k)", len(pacc) == 5 and all(pprods), "a case of the Python reference does not add the product IJ(k, .) * gn(k)", line=pf.lineno)
+    rp = core.find_def(PY, f"{CLS}._run_py")
+    loops = [lp for lp in ast.walk(rp) if isinstance(lp, ast.For) and isinstance(lp.iter, ast.Call) and core.src(lp.iter.func) == "enumerate" and isinstance(lp.target, ast.Tuple)]
+    ok_rp = False
+    if len(loops) == 1:
+        iv, ov = core.src(loops[0].target.elts[0]), core.src(loops[0].target.elts[1])
+        stores = [st_ for st_ in loops[0].body if isinstance(st_, ast.Assign) and isinstance(st_.targets[0], ast.Subscript)]
+        ok_rp = len(stores) == 1 and core.src(stores[0].targets[0].slice) == iv and isinstance(stores[0].value, ast.Call) and core.src(stores[0].value.func) == "self._get_integration_weight_py" and core.src(stores[0].value.args[0]) == ov and core.src(loops[0].iter.args[0]) == rp.args.args[1].arg
+    rep.instance("R11j", PY, f"{CLS}._run_py", "iw[i] = weight(omegas[i]) for every frequency point", ok_rp, "the Python path does not store the weight of frequency point i at position i", line=rp.lineno)
 
 
 def selftest():
